@@ -465,6 +465,8 @@ def run_job(pid, job, acc):
         if job.get("long"):
             g["steps"] = g.get("steps", 60) * job["long"]
             g["max_conns"] = g.get("max_conns", 6) + 3
+        if job.get("life") and s % 5 == 2:
+            g["jumps"] = True
         hist = generate(s, style=("life" if job.get("life") else None), **g)
         cfg = cfg_for(s, configs_for(pid))
         run_hist(acc, hist, cfg, s, ("life:%d" if job.get("life") else "random:%d") % s, nontrivial_keys=p["keys"],
